@@ -1,0 +1,32 @@
+//go:build verif
+
+package otr
+
+// VerifC47State is the control state of a Conversation as read by the C47 check
+// (message state, AKE state, SMP state, key ids, fragment cursor, whether the DH
+// values of the running AKE are present). Read-only; nothing else is exported.
+type VerifC47State struct {
+	State, AuthState, SMPState int
+	MyKeyID, TheirKeyID        uint32
+	FragK, FragN               int
+	HaveGX, HaveGY             bool
+	SMPSaved                   bool
+	UsedSlots                  int
+}
+
+// VerifC47State returns a snapshot of the unexported control state of c.
+func (c *Conversation) VerifC47State() VerifC47State {
+	s := VerifC47State{
+		State: c.state, AuthState: c.authState, SMPState: c.smp.state,
+		MyKeyID: c.myKeyId, TheirKeyID: c.theirKeyId,
+		FragK: c.k, FragN: c.n,
+		HaveGX: c.gx != nil, HaveGY: c.gy != nil,
+		SMPSaved: c.smp.saved != nil,
+	}
+	for i := range c.keySlots {
+		if c.keySlots[i].used {
+			s.UsedSlots++
+		}
+	}
+	return s
+}
